@@ -436,6 +436,8 @@ func Run(cfg *common.Config) (*common.Report, error) {
 	lap("mutation")
 	d.hashValueStream()
 	lap("hashvalue")
+	d.pathStream()
+	lap("paths")
 	if err := d.gobStream(); err != nil {
 		return nil, err
 	}
@@ -545,7 +547,7 @@ func (d *drv) replay() error {
 		fmt.Printf("replay: %s: %s %s (%s) alloc=%d\n", in.Op, res[0].Class, res[0].Msg, res[0].Site, res[0].Alloc)
 		d.rep.Evaluations++
 		if c := res[0].Class; c == "panic" || c == "hang" || c == "crash" || c == "nilnil" {
-			d.fail(map[string]string{"mzfrombytes": "MerklizerFromBytes", "entry": "RDFEntry.UnmarshalBinary"}[in.Op], res[0], json.RawMessage(rf.Input))
+			d.fail(map[string]string{"mzfrombytes": "MerklizerFromBytes", "entry": "RDFEntry.UnmarshalBinary", "entrykv": "RDFEntry.UnmarshalBinary+KeyValueMtEntries"}[in.Op], res[0], json.RawMessage(rf.Input))
 		}
 	case "document":
 		var in struct{ Why, Doc, Regenerate string }
@@ -586,6 +588,8 @@ func (d *drv) replay() error {
 		}
 		d.rep.Failures = keep
 		d.cases = nil
+	case "path", "path-string":
+		d.pathStream()
 	case "status-go-value":
 		d.programmaticStatusStream()
 	case "did-resolver", "status-resolver":
